@@ -282,7 +282,7 @@ func init() {
 			"EVERY read-only or value-returning public operation (28 sbom operations, the enum helpers, WriteStream for the 7 registered formats, storage.Store) is called and an order-sensitive proto.Equal snapshot of every operand is compared before/after. " +
 			"race rounds (-race build): 16 goroutines call the same operations on ONE shared document; GORACE logs are parsed, any report with a protobom frame is a violation; overlapping operation pairs are measured from call/return stamps. " +
 			"A reflection pass over the exported method sets of the message types makes the run inconclusive if it meets a method that is neither in the read-only nor in the mutator list. " +
-			"distinct = hash of the operand set; non-trivial = document with >=1 edge having >=2 targets.",
+			"Half of the nodes carry realistic package URLs in several spellings (so that lookups match), half of the lists hold edge records without targets, a third of the documents have no identifier. distinct = hash of the operand set; non-trivial = document with >=1 edge having >=2 targets.",
 		Assumptions: []string{"nil and empty collections are identified", "the race detector reports races on executed accesses (happens-before), so coverage is by operation pair, not by schedule"},
 		NCases: func(tier string) int {
 			if tier == "thorough" {
